@@ -44,6 +44,10 @@ func residueMod(d *absint.Poly, m *big.Int) string {
 // Not decided: that q3 is within 2 of the true quotient (the estimate), hence that two conditional subtractions suffice.
 func ruleExactModm(r *rep.Report, p *load.Program) {
 	cfg := p.Cfg.Name
+	if r.Extra["once:exactmodm:"+cfg] != nil {
+		return
+	}
+	r.Extra["once:exactmodm:"+cfg] = true
 	bpl, n, w := modmLayout(p)
 	if n == 0 {
 		return
